@@ -70,11 +70,47 @@ pub struct ZoneFile {
     pub version: Version,
     pub ind: Indicators,
     pub explicit_footer: bool,
+    /// bytes of unused (but well-formed) designations appended to the abbreviation table
+    #[serde(default)]
+    pub extra_chars: usize,
 }
 impl ZoneFile {
     pub fn bytes(&self) -> Vec<u8> {
-        crate::refmodel::zone::write_tzif(&self.model, self.version, self.ind, self.explicit_footer)
+        crate::refmodel::zone::write_tzif_ext(&self.model, self.version, self.ind, self.explicit_footer, self.extra_chars)
     }
+}
+
+/// a file with many types and a large designation table (up to and beyond 256 bytes)
+pub fn big_table_file() -> BoxedStrategy<ZoneFile> {
+    (zone_file(20), 8usize..=36, proptest::sample::select(vec![0usize, 0, 1, 4, 60, 200, 300]), any::<u64>())
+        .prop_map(|(mut f, ntypes, extra, salt)| {
+            // distinct six-letter abbreviations: 7 table bytes each, every index stays below 256
+            while f.model.types.len() < ntypes {
+                let k = f.model.types.len() as u64;
+                let abbr: String = (0..6).map(|j| (b'A' + ((salt >> (j * 5)).wrapping_add(k * 7 + j) % 26) as u8) as char).collect();
+                let utoff = ((salt.wrapping_mul(k + 3) % 170_000) as i32 - 85_000) / 900 * 900;
+                f.model.types.push(ZType { utoff, isdst: k % 3 == 0, abbr });
+            }
+            // let some transitions use the new types (keep the last one: footer consistency)
+            let n = f.model.transitions.len();
+            for (i, t) in f.model.transitions.iter_mut().enumerate() {
+                if i + 1 < n && (salt >> (i % 60)) & 1 == 1 { t.1 = (salt as usize).wrapping_add(i * 13) % ntypes; }
+            }
+            // re-space: type changes altered the offset jumps
+            let mut prev_off = f.model.types[0].utoff as i64;
+            let mut prev_jump = 0i64;
+            let mut last_t = i64::MIN;
+            for t in f.model.transitions.iter_mut() {
+                let off = f.model.types[t.1].utoff as i64;
+                let jump = (off - prev_off).abs();
+                if last_t != i64::MIN && t.0 - last_t < jump + prev_jump + 2 { t.0 = last_t + jump + prev_jump + 2 + 86_400; }
+                last_t = t.0; prev_off = off; prev_jump = jump;
+            }
+            if f.model.footer.is_some() { f.model.footer = None; if f.version == Version::V1 { f.version = Version::V2; } }
+            f.extra_chars = extra;
+            f
+        })
+        .boxed()
 }
 
 /// structured zone model + file parameters. `max_transitions` bounds the transition count.
@@ -166,7 +202,7 @@ pub fn zone_file(max_transitions: usize) -> BoxedStrategy<ZoneFile> {
                 if transitions[n - 1].0 - transitions[n - 2].0 >= need { break; }
                 transitions.remove(n - 2);
             }
-            ZoneFile { model: Model { types, transitions, footer }, version, ind, explicit_footer: explicit }
+            ZoneFile { model: Model { types, transitions, footer }, version, ind, explicit_footer: explicit, extra_chars: 0 }
         })
         .boxed()
 }
